@@ -38,7 +38,7 @@ CLAIMED = {
         text=('Bounded model checking of dt_dadd_m/_y, dt_dadd(DURMO/DURQU/DURYR) and dt_dfixup for ymd, ymcw, '
               'ywd, yd: result equals the reference month arithmetic with ultimo/count/week clamp; '
               'composition +a then +b == +(a+b) on the lazily clamped values.'),
-        note='reference h/ref.h; |n| <= 48 months (unwinding assertion), years unbounded inside the range',
+        note='reference h/ref.h; |n| <= 48 months (unwinding assertion), years unbounded inside the range; composition of month steps (ymd) and of month/year steps on count-weekday dates',
         technique='CBMC bounded model checking of month/year add + fixup against reference month arithmetic',
         design='3/C04'),
     'C07': dict(
@@ -84,7 +84,7 @@ CLAIMED = {
               '(linear-scan oracle); zif_utc_time returns a valid preimage whenever one exists; a concrete '
               '300-entry table covers transition numbers > 255. Non-termination is detected through failing '
               'unwinding assertions confirmed by a hanging replay.'),
-        note=('tables as loaded (sorted, type index < nty); loader and real files: C19; local->UTC for tables with '
+        note=('tables as loaded (sorted, type index < nty); faithful loading (same-type merge only) decided for version 1 images of 3 transitions / 2 types (thorough: up to 5 / 3) with the C19 harness, loader memory safety and real files: C19; local->UTC for tables with '
               'transitions more than 64h apart; three defects found and fixed'),
         technique='CBMC bounded model checking of the zone lookup over symbolic transition tables',
         design='3/C12'),
@@ -135,7 +135,7 @@ CLAIMED = {
               'seconds duration (sign flag, refined units in their natural ranges, coarsest carries the rest, components '
               'recombine to the duration truncated to the finest unit), the year/quarter/month split of symbolic ymd '
               'durations, and ltostr (text denotes the value, one minus sign, all widths and padding modes).'),
-        note=('duration magnitude < 2^24 s quick / 2^31 s thorough (64-bit division chains stall SAT beyond); the '
+        note=('duration magnitude < 2^24 s quick / 2^31 s thorough (64-bit division chains stall SAT beyond), plus windows of 2^20 s at the 32-bit wrap points (2^31, 2^32; thorough up to 2^36) and at the far end of the calendar span; the '
               '__strfdtdur driver loop itself is covered for memory safety in C10; one defect found and fixed'),
         technique='CBMC bounded model checking of the ddiff unit cascade and number printer',
         design='3/C06'),
@@ -157,7 +157,7 @@ CLAIMED = {
               'all once a base is set); plus a call-graph obligation on the goto program of every tool: no edge into '
               'localtime/mktime/tzset/setlocale/strftime/..., clock reads only in now_tv.'),
         note=('call-graph part is a static over-approximation by goto-instrument, not a solver query; getenv only for '
-              'LOCALE_FILE/TZMAP_DIR (not checked); the locale file parser (__setlocale, tokenise) is not covered; '
+              'LOCALE_FILE/TZMAP_DIR (not checked); the --base gate includes time-only input with any subset of h/m/s given; the locale file parser (__setlocale, tokenise) is not covered; '
               'one defect found and fixed'),
         technique='CBMC bounded model checking of setter call sequences and the clock gate + goto call-graph reachability',
         design='3/C20'),
@@ -180,7 +180,7 @@ CLAIMED = {
               'count-weekday forms, and each calendar default with the format-less parser): for every day of the year '
               'window the parsed value is the original day in the original representation and the whole text is consumed.'),
         note=('formats enumerated (26 + defaults); English names only; long names left out (cbmc string-copy model gave '
-              'non-replaying counterexamples); time, date-time, %s, %Z formats and shipped locales not yet covered'),
+              'non-replaying counterexamples); 13 time-of-day formats and the value layer of %s (epoch <-> civil, C11 harness) covered; date-time formats, the decimal text of %s, %Z and shipped locales not covered'),
         technique='CBMC bounded model checking of format/parse round trips per enumerated format',
         design='3/C09'),
     'C18': dict(
